@@ -494,6 +494,56 @@ example : bestFft 1 [(3 : Int), 5] (-1) 1 = some [8, -2] := by decide
 
 end
 
+section
+variable {F : Type} [CommRing F]
+
+/-- The DFT matrix is symmetric: `Σᵢ eᵢ·DFT(g)ᵢ = Σⱼ gⱼ·DFT(e)ⱼ`. -/
+theorem dft_symmetric (ω : F) (e g : List F) (hlen : e.length = g.length) :
+    ∑ i ∈ Finset.range e.length, e.getD i 0 * (dft ω g).getD i 0
+      = ∑ j ∈ Finset.range e.length, g.getD j 0 * (dft ω e).getD j 0 := by
+  have hd : ∀ (a : List F) (i : Nat), i < a.length →
+      (dft ω a).getD i 0 = ∑ l ∈ Finset.range a.length, a.getD l 0 * (ω ^ i) ^ l := by
+    intro a i hi
+    have : (dft ω a).getD i 0 = horner a (ω ^ i) := by simp [dft, List.getD, hi]
+    rw [this, horner_eq_sum]
+  have h1 : ∀ i ∈ Finset.range e.length, e.getD i 0 * (dft ω g).getD i 0
+      = ∑ l ∈ Finset.range e.length, e.getD i 0 * (g.getD l 0 * ω ^ (i * l)) := by
+    intro i hi
+    rw [hd g i (by rw [← hlen]; exact Finset.mem_range.mp hi), ← hlen, Finset.mul_sum]
+    apply Finset.sum_congr rfl
+    intro l _
+    rw [← pow_mul]
+  have h2 : ∀ j ∈ Finset.range e.length, g.getD j 0 * (dft ω e).getD j 0
+      = ∑ l ∈ Finset.range e.length, g.getD j 0 * (e.getD l 0 * ω ^ (j * l)) := by
+    intro j hj
+    rw [hd e j (Finset.mem_range.mp hj), Finset.mul_sum]
+    apply Finset.sum_congr rfl
+    intro l _
+    rw [← pow_mul]
+  rw [Finset.sum_congr rfl h1, Finset.sum_congr rfl h2, Finset.sum_comm]
+  apply Finset.sum_congr rfl
+  intro j _
+  apply Finset.sum_congr rfl
+  intro i _
+  rw [Nat.mul_comm i j]; ring
+
+/-- `lagrange_commit_eq_coeff_commit` (on discrete logarithms of the SRS): with the Lagrange SRS
+`g_lagrange = g_to_lagrange(g) = (1/n)·DFT_{ω⁻¹}(g)` and the coefficient vector
+`c = lagrange_to_coeff(e) = (1/n)·DFT_{ω⁻¹}(e)`, the Lagrange-basis commitment `Σ eᵢ·g_lagrangeᵢ`
+equals the monomial-basis commitment `Σ cⱼ·gⱼ` — for every SRS vector `g`, not only `gⱼ = sʲ`. -/
+theorem lagrange_commit_eq_coeff_commit (ωinv ninv : F) (e g : List F) (hlen : e.length = g.length) :
+    ∑ i ∈ Finset.range e.length, e.getD i 0 * ((dft ωinv g).getD i 0 * ninv)
+      = ∑ j ∈ Finset.range e.length, ((dft ωinv e).getD j 0 * ninv) * g.getD j 0 := by
+  have h := dft_symmetric ωinv e g hlen
+  have h' := congrArg (· * ninv) h
+  simp only [Finset.sum_mul] at h'
+  rw [show (∑ i ∈ Finset.range e.length, e.getD i 0 * ((dft ωinv g).getD i 0 * ninv))
+      = ∑ i ∈ Finset.range e.length, e.getD i 0 * (dft ωinv g).getD i 0 * ninv from
+    Finset.sum_congr rfl (fun i _ => by ring), h']
+  exact Finset.sum_congr rfl (fun j _ => by ring)
+
+end
+
 /-- The swap loop of `best_fft` (`if k < rk { a.swap(rk, k) }` with the shift-and-or `bitreverse`)
 is the even/odd recursive bit-reversal permutation — checked on the position vector
 `[0, …, 2^k − 1]` for every `k ≤ 7` by kernel evaluation (a bounded statement: larger sizes are
